@@ -200,7 +200,14 @@ func mutantOverlay(repo string, m rules.Mutant) (map[string][]byte, bool, error)
 	if strings.Count(s, m.Old) != 1 {
 		return nil, true, nil
 	}
-	return map[string][]byte{path: []byte(strings.Replace(s, m.Old, m.New, 1))}, false, nil
+	s = strings.Replace(s, m.Old, m.New, 1)
+	for _, e := range m.More {
+		if strings.Count(s, e[0]) != 1 {
+			return nil, true, nil
+		}
+		s = strings.Replace(s, e[0], e[1], 1)
+	}
+	return map[string][]byte{path: []byte(s)}, false, nil
 }
 
 // patchOverlay applies a unified diff to copies of the touched files and returns them as overlay.
